@@ -92,6 +92,18 @@ def daemonPassIO (ofd : Nat) (w : W) (p : PassIn) : W × List String :=
   if w.clients.isEmpty then (w, body ++ teardown w ++ ["O teardown", "."])
   else (w, body ++ dumpLines w (some a.tmo))
 
+/-- `cli_fini` with the `--stdio` client still there (`list_destroy` → `_destroy_client`): both its descriptors are closed; the
+    devices are torn down as always -/
+def teardownIO (ofd : Nat) (w : W) : List String :=
+  (w.clients.flatMap fun c => [s!"Y close {c.fd}", s!"Y close {ofd}"]) ++ teardown { w with clients := [] }
+
+/-- a termination signal while the `--stdio` client is being served: what was registered for `poll`, then the teardown — nothing
+    `poll` reports in that pass is looked at, and what is still queued for the client is not flushed -/
+def signalPassIO (ofd : Nat) (w : W) : List String :=
+  let ints := cliPrePollIO ofd w ++ w.devs.filterMap fun (nd : Bytes × Dev2.Dev) => Pm.Dev2.prePoll nd.2
+  (ints.map fun (fd, f) => s!"O interest {fd} {f}") ++
+    [s!"O polltmo {match w.tmo with | some t => toString (t / 1000) | none => "-1"}"] ++ teardownIO ofd w
+
 /-! ## what carries over from the one-descriptor client -/
 
 open Pm.Daemon.Tel (written)
